@@ -58,3 +58,28 @@ Definition honest_run : list (Z * string * request) :=
 Example C05_honest_run_reaches_ready :
   d_state (run_round {| d_state := "__idle"; d_payload := empty_payload |} honest_run) = "stage_signing_idle".
 Proof. vm_compute. reflexivity. Qed.
+
+(* (1) unanimity: the proposal is validated only when every invited participant has accepted, and
+   each key-generation phase is confirmed only when every participant of the quorum has confirmed it *)
+Require Import Fsm.Unanimous.
+Theorem C05_proposal_validated_unanimously :
+  forall ev p req resp p', action_sig_validate ev p req = CbOk ev_sig_set_validated resp p' ->
+  exists conf, p_sig p = Some conf /\ forall x, In x (sc_quorum conf) -> sp_status (snd x) = SigConfirmed.
+Proof. exact sig_validated_unanimous. Qed.
+Theorem C05_dkg_phase_confirmed_unanimously :
+  forall k ev p req resp p', (k < 4)%N ->
+  action_dkg_validate k ev p req = CbOk (ev_dkg_confirmed k) resp p' ->
+  exists c, p_dkg p = Some c /\ forall x, In x (dc_quorum c) -> dp_status (snd x) = dkg_confirmed k.
+Proof. exact dkg_phase_confirmed_unanimous. Qed.
+Print Assumptions C05_dkg_phase_confirmed_unanimously.
+
+(* (1) order: in the graph of the regenerated tables signing-ready is reachable from the entry
+   state, but not around any of the phases, and no phase around its predecessor; from
+   signing-ready no key-generation state is reachable again *)
+Theorem C05_phases_in_order :
+  reach_avoiding "" "__idle" "stage_signing_idle" = true /\
+  forallb (fun s => negb (reach_avoiding s "__idle" "stage_signing_idle")) phase_order = true /\
+  forallb (fun ab => negb (reach_avoiding (fst ab) "__idle" (snd ab))) (consecutive phase_order) = true /\
+  forallb (fun s => negb (reach_avoiding "" "stage_signing_idle" s)) phase_order = true.
+Proof. exact phases_in_order. Qed.
+Print Assumptions C05_phases_in_order.
